@@ -55,19 +55,19 @@ CHECKS = {
                 text="About 7.4k generated single-obligation programs over every public type of hash_map, hash_set, hash_table and the rayon adaptors: auto-trait obligations under every assignment of {Send+Sync, Send-only, Sync-only, neither} witness types that violates a hand-written access-requirement table must be rejected (E0277) while the all-Send+Sync twin is accepted; covariant coercions through writing types must be rejected; results of every borrowing method used after mutate/drop/move of the collection must be rejected while the control twin compiles. The type checker is universal over the generic parameters for the witness lattice used; the inventory and the table are hand-written (new public types are reported).",
                 ref="9.16", note="Trusted base: rustc's type and borrow checker, the hand-written access-requirement table (DESIGN Appendix A) and inventory of public types."),
     "C19": dict(cat="exploration", tech="PBT over (occupancy pattern, parallel operation, pool size, early-stop point) on real rayon pools + hook-driven explicit split trees, with an atomic per-element drop/delivery ledger",
-                text="Generated occupancy patterns on map/sets/table of atomically tracked elements; every par_* adaptor on pools of 1..64 threads, fully consumed, stopped early or never driven; par_extend / from_par_iter with repeated keys carrying their input position, by value and by reference, into empty and non-empty targets; par_eq on perturbed clones; explicit split trees through hooks for RawIterRange::split (leaves must partition the FULL buckets) and ParDrainProducer (split / fold with a folder that fills up / drop). Delivered multiset == contents; every element dropped exactly once; collection empty, valid and usable after par_drain.",
+                text="Generated occupancy patterns on map/sets/table of atomically tracked elements; every par_* adaptor on pools of 1..64 threads, fully consumed, stopped early (try_for_each, find_any, a consumer that panics at the k-th item) or never driven; par_extend / from_par_iter with repeated keys carrying their input position, by value and by reference, into empty and non-empty targets; par_eq on perturbed clones; explicit split trees through hooks for RawIterRange::split (leaves must partition the FULL buckets) and ParDrainProducer (split / fold with a folder that fills up / drop). Delivered multiset == contents; every element dropped exactly once; collection empty, valid and usable after par_drain.",
                 ref="9.19"),
     "C17": dict(cat="exploration", tech="exhaustive + boundary + seeded-random enumeration of the arithmetic functions through hooks vs independent u128 arithmetic",
-                text="capacity_to_buckets, bucket_mask_to_capacity, calculate_layout_for, TableLayout::new and the probe sequence are evaluated through read-only hooks on both group widths over exhaustive low ranges, +-4096 (quick) / +-65536 (thorough) neighbourhoods of every 2^k and 7/8*2^k up to usize::MAX, extreme (size, align) pairs and seeded random 64-bit inputs; exhaustive only in the stated ranges.",
+                text="capacity_to_buckets, bucket_mask_to_capacity, calculate_layout_for, TableLayout::new and the probe sequence are evaluated through read-only hooks on both group widths over exhaustive low ranges, +-4096 (quick) / +-65536 (thorough) neighbourhoods of every 2^k and 7/8*2^k up to usize::MAX, extreme (size, align) pairs and seeded random 64-bit inputs; plus requests made through live HashTable / HashSet objects (len 0..100, four element sizes): try_reserve / reserve with len + additional at every cheap 2^k and 7/8*2^k boundary and additional at the ends of the usize range (Ok needs capacity() >= len + additional, no panic, no wrapped sum); exhaustive only in the stated ranges.",
                 ref="9.17"),
     "C18": dict(cat="exploration", tech="differential PBT (SSE2 build vs portable twin in one process, step-wise transcript) + exhaustive byte-window enumeration of the scanner primitives vs bytewise reference",
                 text="Every generated map/table case (lookups, inserts, removals, entries, shared iterators with every continuation, iter_hash) runs on both back-ends; both must satisfy the model at every step and produce identical per-step digests of (len, sorted contents). The scanner primitives are compared with their bytewise definitions on all 2^16 values of every adjacent byte pair in several background groups plus random groups.",
                 ref="9.18"),
     "C20": dict(cat="exploration", tech="PBT over (entry stream with duplicates, claimed size hint, error position, format) with round-trip, last-wins model and allocation ledger",
-                text="serde_json round trips and serde value deserializers over lying iterators (hints: none, exact, understated, overstated, huge) for maps and sets of tracked elements and of (), u8, u64, bool, String elements: equality after round trip, last value wins, errors returned with every built element dropped once and nothing left allocated, reservation before the first read bounded by with_capacity(4096), deserialize_in_place clears first.",
+                text="serde_json round trips and serde value deserializers over lying iterators (hints: none, exact, understated, overstated and satisfiable such as 5000 .. 2^20, huge incl. 2^63 +- 1 and usize::MAX) for maps and sets of tracked elements and of (), u8, u64, bool, String elements: equality after round trip, last value wins, errors returned with every built element dropped once and nothing left allocated, reservation before the first read bounded by with_capacity(4096), deserialize_in_place clears first.",
                 ref="9.20"),
     "C15": dict(cat="exploration", tech="PBT over (state, N, key tuples) with pointer-distinctness and write-through oracle",
-                text="get_many_mut / get_many_key_value_mut (HashMap) and get_many_mut (HashTable, closures that may match several entries) for N in 0..=4, 9, 12, and on the element-layout family (zero-sized, over-aligned) with N = 1, 2: panic iff two requests name one entry, distinct addresses, right targets, sentinels land in the model's entries.",
+                text="get_many_mut / get_many_key_value_mut (HashMap) and get_many_mut (HashTable, closures that may match several entries) for N in 0..=4, 9, 12, with the keys themselves or unsized equivalent keys that all start at one address, and on the element-layout family (zero-sized, over-aligned) with N = 1, 2: panic iff two requests name one entry, distinct addresses, right targets, sentinels land in the model's entries.",
                 ref="9.15"),
 }
 
